@@ -460,6 +460,20 @@ FNUNITS = [
       "int_types": {"comp_coder_t": [False, 32]}}),
     # is_reserved: the strcmp chain over the library's class names and the strncmp prefix test
     ("Repack2", "mfhdf/hrepack/hrepack_utils.c", ["is_reserved"], {"ignore_calls": ["printf"], "libc_builtins": True}),
+    # C05: the bit-I/O layer (bitrec_t found by an atom lookup = entry parameters `rec_*`; bytep / bytez are cursors into the buffer bytea;
+    # Hread / Hwrite / Hseek on one random-access element io_elt / io_epos / io_enew).  The static call graph has a cycle
+    # Hbitwrite -> HIread2write -> Hbitseek -> HIbitflush -> Hbitwrite that no execution closes (Hbitseek flushes with flushbit = -1, and then
+    # HIbitflush does not call Hbitwrite): Hbitseek calls the variant HIbitflush_m, the same C text with the call of Hbitwrite trapped (ub).
+    ("Hbitio2", "hdf/src/hbitio.c", ["HIbitflush_m", "Hbitseek", "HIread2write", "Hbitwrite", "HIbitflush", "HIwrite2read", "Hbitread"],
+     {"ignore_calls": ["HEclear", "HEPclear", "HEpush"], "imports": ["H4.Gen.Hbitio"],
+      "globals": {"maskc": "H4.Gen.Hbitio.maskc", "maskl": "H4.Gen.Hbitio.maskl"},
+      "struct_locals": ["bitfile_rec"],
+      "cursors": {"bitfile_rec_bytep": "bitfile_rec_bytea", "bitfile_rec_bytez": "bitfile_rec_bytea"},
+      "io": {"Hread": "eread", "Hwrite": "ewrite", "Hseek": "eseek"},
+      "const_narrowing": True, "segments": True,
+      "variants": {"HIbitflush_m": {"of": "HIbitflush", "trap_calls": ["Hbitwrite"]}},
+      "per_fn": {"Hbitseek": {"call_map": {"HIbitflush": "HIbitflush_m"}}},
+      "abbrev": {"bitfile_rec": "rec"}}),
 ]
 
 
